@@ -20,8 +20,8 @@ Record env := {
   e_http_post : bytes;
   e_ssh_banner : bytes;
   e_ghost : bytes;
-  e_smb1_blob : bytes;
-  e_smb2_blob : bytes
+  e_smb_neg : bytes;    (* SECURITY_BLOB_NEG_PROTO *)
+  e_smb_chal : bytes    (* SECURITY_BLOB_CHALLENGE *)
 }.
 
 (* wall-clock inputs *)
@@ -102,8 +102,10 @@ Definition dispatch (E : env) (clk : clock) (ci : cinfo) (id : N) (t : option tc
     | Some ip, Some port => Ok (ci, t, rpc_repl_udp ip port data)
     | _, _ => Ok (ci, t, None)
     end
-  else if id =? PROTO_SMB1 then Ok (ci, t, smb1_repl (e_smb1_blob E) (clk_filetime clk) data)
-  else if id =? PROTO_SMB2 then Ok (ci, t, smb2_repl (e_smb2_blob E) (clk_filetime clk) data)
+  else if id =? PROTO_SMB1 then
+    do r <- smb1_repl (e_smb_neg E) (e_smb_chal E) (clk_filetime clk) data; Ok (ci, t, r)
+  else if id =? PROTO_SMB2 then
+    do r <- smb2_repl (e_smb_neg E) (e_smb_chal E) (clk_filetime clk) data; Ok (ci, t, r)
   else
     Ok (ci, match t with
             | Some tc => Some {| t_smack := t_smack tc; t_proto := PROTO_NONE; t_pstate := t_pstate tc |}
